@@ -192,6 +192,7 @@ struct LqRun {
 
 struct LqScenario : Scenario {
     const char* name() const override { return "lq"; }
+    int step_offset() const override { return 1; }
     static std::string rhex(Rng& r, size_t n) { std::vector<uint8_t> b(n); r.fill(b.data(), n); return hex(b.data(), n); }
     Plan generate(uint64_t seed, const std::map<std::string, int64_t>& knobs) override {
         Rng r(seed); Plan p; p.scenario = name(); p.cfg["setup_seed"] = (int64_t) (r.next() >> 1);
